@@ -27,6 +27,22 @@ def gen_cases(ctx):
                 gates.append({"g": "op", "kind": rng.choice(["H", "X", "S", "Z"]), "params": [], "ts": [t], "cs": rng.sample(rest, rng.randrange(0, min(2, len(rest)) + 1))})
             if rng.random() < 0.5: gates.append({"g": "meas", "basis": rng.choice(["C", "X", "Y"]), "qs": rng.sample(used, rng.randrange(1, len(used) + 1))})
             cases.append({"op": "export", "mode": "text", "n": n, "gates": gates})
+    # an export that follows a REFUSED export on the same thread (a non-finite angle after a few good gates, a measurement group before it):
+    # the text is that of the circuit alone
+    nanrx = lambda q: {"g": "op", "kind": "RX", "params": [float2bits(float("nan"))], "ts": [q], "cs": []}
+    hgate = lambda q: {"g": "op", "kind": "H", "params": [], "ts": [q], "cs": []}
+    for n in (2, 3, 4):
+        before = [[hgate(0), {"g": "meas", "basis": "X", "qs": [0, 1]}, hgate(1), nanrx(0)], [hgate(1), nanrx(1), hgate(0)]]
+        for _ in range(2):
+            cases.append({"op": "export", "mode": "text", "n": n, "gates": rand_circuit(rng, n, rng.randrange(1, 8), us), "before": before})
+    # a circuit with SEVERAL operations that cannot be exported: the export fails the same way for every thread count and run
+    for L in (60, 1000):
+        n = 4
+        bad1 = {"g": "op", "kind": "RX", "params": [float2bits(float("nan"))], "ts": [0], "cs": []}
+        bad2 = {"g": "op", "kind": "RY", "params": [float2bits(float("inf"))], "ts": [1], "cs": [2]}
+        bad3 = {"g": "op", "kind": "P", "params": [float2bits(float("-inf"))], "ts": [2], "cs": []}
+        gates = rand_circuit(rng, n, L, us, allow=("op",)) + [bad1] + rand_circuit(rng, n, 40, us, allow=("op",)) + [bad2] + rand_circuit(rng, n, 40, us, allow=("op",)) + [bad3]
+        cases.append({"op": "export", "mode": "determinism", "n": n, "gates": gates, "pools": [1, 2, 3, 8, 16], "rebuilds": 3, "unexportable": True})
     # several measurement groups, all bases, interleaved with gates: numbering and sizes
     for _ in range(20):
         n = rng.randrange(2, 6)
@@ -79,10 +95,12 @@ def judge(ctx, cases, results, codes):
         b = brief(c)
         if r.get("r") in ("panic", "crash"):
             ctx.violations.append(("export panicked: %s" % r.get("msg", ""), {"case": c, "brief": b})); continue
-        has_match = any(g.get("kind") == "Match" for g in c["gates"])
+        has_match = any(g.get("kind") == "Match" for g in c["gates"]) or bool(c.get("unexportable"))
         if r.get("r") == "err":
             stats["refused"] += 1
             if not has_match: ctx.violations.append(("export refused an exportable circuit: %s" % r.get("e"), {"case": c, "brief": b}))
+            elif c["mode"] == "determinism" and r.get("differing"):
+                ctx.violations.append(("the error an export fails with differs between runs / thread counts (%s): %s" % (r.get("e"), r["differing"][:6]), {"case": c, "brief": b}))
             continue
         if has_match and r.get("r") == "ok":
             ctx.violations.append(("a circuit with an operator that has no OpenQASM form was exported", {"case": c, "brief": b})); continue
